@@ -93,35 +93,40 @@ Section Closed.
   Proof. intros ub e H. exact (Q_sb_size ub (esize e) e (le_n _) H). Qed.
 End Closed.
 
-(* ---- shapes on which SimplifyUnusedExpr is NOT sound (known findings A and K),
-   excluded from simplify_unused_sound:
-   A: an object literal without spread that has a computed key (residue k + "");
-   K: a call marked pure that is an optional call or continues an optional chain *)
-Fixpoint no_bad (e : expr) {struct e} : Prop :=
-  let all := fix all (l : list expr) : Prop := match l with [] => True | x :: r => no_bad x /\ all r end in
+(* ---- the side condition of simplify_unused_sound:
+   A (known finding, excluded shape): an object literal without spread that has a
+      computed key (residue k + "");
+   K (repaired, a3926ba): a call marked pure in an optional chain is unwrapped only
+      when all its arguments can be removed; the arguments of such a call have to
+      evaluate in the model (the call itself evaluates without evaluating them when
+      the chain short-circuits, and the model is partial) *)
+Fixpoint no_bad (W : world) (e : expr) {struct e} : Prop :=
+  let all := fix all (l : list expr) : Prop := match l with [] => True | x :: r => no_bad W x /\ all r end in
   match e with
-  | EDot t _ _ _ _ => no_bad t
-  | EIndex t i _ => no_bad t /\ no_bad i
-  | ECall t args oc pure => (pure = true -> oc = 0) /\ no_bad t /\ all args
-  | ENew t args _ => no_bad t /\ all args
-  | EUn _ v _ => no_bad v
-  | EBin _ l r => no_bad l /\ no_bad r
-  | EIf t y n => no_bad t /\ no_bad y /\ no_bad n
+  | EDot t _ _ _ _ => no_bad W t
+  | EIndex t i _ => no_bad W t /\ no_bad W i
+  | ECall t args oc pure =>
+      (pure = true -> oc <> 0 -> can_be_removed (w_unbound W) e = true ->
+         forall x, In x args -> forall tr, eval W tr x <> None) /\ no_bad W t /\ all args
+  | ENew t args _ => no_bad W t /\ all args
+  | EUn _ v _ => no_bad W v
+  | EBin _ l r => no_bad W l /\ no_bad W r
+  | EIf t y n => no_bad W t /\ no_bad W y /\ no_bad W n
   | ETemplate _ parts =>
-      (fix go (l : list (expr * list Z)) : Prop := match l with [] => True | (v, _) :: r => no_bad v /\ go r end) parts
+      (fix go (l : list (expr * list Z)) : Prop := match l with [] => True | (v, _) :: r => no_bad W v /\ go r end) parts
   | EArray items => all items
-  | ESpread v => no_bad v
+  | ESpread v => no_bad W v
   | EObject props =>
       (existsb (fun p : Z * bool * expr * expr => let '(kind, _, _, _) := p in kind =? 1) props = true \/
        forallb (fun p : Z * bool * expr * expr => let '(_, computed, _, _) := p in negb computed) props = true) /\
       (fix go (l : list (Z * bool * expr * expr)) : Prop :=
-         match l with [] => True | (_, _, k, v) :: r => no_bad k /\ no_bad v /\ go r end) props
-  | EAnnot v _ => no_bad v
-  | EInlinedEnum v => no_bad v
+         match l with [] => True | (_, _, k, v) :: r => no_bad W k /\ no_bad W v /\ go r end) props
+  | EAnnot v _ => no_bad W v
+  | EInlinedEnum v => no_bad W v
   | _ => True
   end.
 
-Lemma no_bad_sb : forall ub e, no_bad e -> no_bad (simplify_boolean ub e).
+Lemma no_bad_sb : forall W ub e, no_bad W e -> no_bad W (simplify_boolean ub e).
 Proof.
-  intros ub e. apply Q_sb; intros; cbn [no_bad] in *; tauto.
+  intros W ub e. apply Q_sb; intros; cbn [no_bad] in *; tauto.
 Qed.
